@@ -20,7 +20,7 @@ from ..build import build
 from ..cases import case_rng, program_for
 from ..gen import mentioned_keys, spec_hash
 from ..outcome import canon, observe, short
-from ..ref import Ref
+from ..ref import Ref, kinds_of
 from ..tap import Tap
 
 PROPERTY = "C16"
@@ -41,7 +41,7 @@ RULE = (
 ASSUMPTIONS = ["contradictory spellings (DISABLED false with DISABLE true) are not generated", "AllOptions is excluded (it would expose the switch keys as values)"]
 FLOORS = {"steps": (5000, 60000), "cache_off_steps": (2500, 30000), "effects_off_steps": (2000, 25000), "logging_off_steps": (2000, 25000),
           "log_records_matched": (2500, 40000), "nocache_graph_steps": (200, 4000), "logging_context_outside_cache_context": (100, 1500),
-          "log_effect_steps": (1400, 20000), "log_effect_records_matched": (100, 1500), "cache_on_shadow_steps": (700, 10000)}
+          "log_effect_steps": (1400, 20000), "log_effect_records_matched": (100, 1500), "cache_on_shadow_steps": (700, 10000), "cache_off_run_lists_compared": (800, 10000)}
 COVER = {"mode_combinations": [f"{c}/{e}/{l}" for c in CACHE_MODES for e in EFFECT_MODES for l in LOG_MODES]}
 SHARDS_QUICK = 4
 FEATURES = {"allopts": False, "domains": False, "preset_templates": False}
@@ -207,8 +207,17 @@ def run_history(ctx, program, history, modes, tag, nocache_graph=False):
                     return
                 r = Ref(program)
                 r.run(o2)
-                if sorted(p for k, p, _ in r.ran if k == "body") != bodies:
+                ref_bodies = sorted(p for k, p, _ in r.ran if k == "body")
+                if ref_bodies != bodies:
                     ctx.count("differs_from_memo_free_reference_run_list")
+                # with caching off nothing is remembered, not even inside one evaluation: every use of a dataset runs
+                # its body, as often as the memo-free reference says (a coalesce validates its members first, which
+                # runs selectors once more and spares the sources of members that cannot be evaluated: not compared)
+                if got[0] == "ok" and exp[0] == "ok" and "coalesce" not in kinds_of(program):
+                    ctx.count("cache_off_run_lists_compared")
+                    if ref_bodies != bodies:
+                        ctx.violation("cache-off-does-not-recompute", f"step {step} cache mode {cm}: bodies ran {bodies}; without any memory every use recomputes: {ref_bodies}", W)
+                        return
                 if cm != "on" and not nocache_graph:
                     if stats["calls"] != calls0:
                         ctx.violation("cache-off-touches-backend", f"step {step} cache mode {cm}: {stats['calls'] - calls0} backend calls", W)
